@@ -13,8 +13,9 @@
 (*   DoitA        expr.doit()             RebuildA    rebuild from own args*)
 (*   PickleA      pickle round trip       CleanupA    PoolSum.cleanup()    *)
 (*   Nest(c)      the term becomes an argument / the summand of a new term *)
-(*   Vary(u)      a neighbour that differs in exactly one argument or one  *)
-(*                non-SymPy attribute (equality / hash law)                *)
+(*   VaryArg / VaryAttr / VaryPool   a neighbour that differs in exactly   *)
+(*                one argument, one non-SymPy attribute or one pool        *)
+(*                (equality / hash law)                                    *)
 (*                                                                         *)
 (*   law  verdict of the laws of ExprAlgebra on the transition just taken   *)
 (*                                                                         *)
@@ -32,7 +33,9 @@ CONSTANTS InitTerms,    \* set of initial terms
           Maps,         \* substitution maps for Xreplace (sequences of <<key, replacement>>)
           Pairs,        \* <<old, new>> pairs for Subs
           Ctxs,         \* nesting contexts: terms with the hole Leaf("_")
-          Neighbours(_),\* term -> set of terms differing in exactly one argument / attribute
+          VaryArgs,     \* replacement terms for "one argument differs"
+          VaryAttrs,    \* labels for "one non-SymPy attribute differs"
+          VaryPools,    \* value tuples for "one pool differs"
           MaxOps, MaxDepth, NestAnytime
 
 VARIABLES cur, fs, den, n, law
@@ -56,20 +59,24 @@ Budget == n < MaxOps
 
 Init == /\ cur \in InitTerms /\ fs = FreeSyms(cur) /\ den = Doit(cur) /\ n = 0 /\ law = "ok"
 
-\* substitution: (i) the commuting diamond  Doit(Subst(t, m)) = Subst(Doit(t), m);
+\* substitution: (i) the commuting diamond  Doit(Subst(t, m)) = Subst(Doit(t), m)  (exact for
+\* unfolded replacement terms, up to a further Doit for folded ones; symbol keys);
 \* (ii) a map whose keys only occur bound changes nothing; (iii) on a node it is a homomorphism
-SubstStep(m) ==
-  LET r == Subst(cur, m) IN
-  /\ Budget /\ Admissible(cur, m)
-  /\ Become(r, 1, << <<"SubstEval", Doit(r) = Subst(den, m)>>,
-                     <<"BoundIdentity", LawBoundIdentity(cur, m)>>,
-                     <<"Homomorphism", LawHomomorphism(cur, m)>>,
-                     <<"FreeAfterSubst", FreeSyms(Doit(r)) = FreeSyms(r)>> >>)
-Xreplace(m) == SubstStep(m)
-Subs(o, r)  == SubstStep(<<<<o, r>>>>)
+SubstChecks(m, r) ==
+  << <<"SubstEval", LeafKeyed(m) => Doit(r) = Doit(Subst(den, m))>>,
+     <<"SubstEvalExact", (LeafKeyed(m) /\ UnfoldedRepl(m)) => Doit(r) = Subst(den, m)>>,
+     <<"BoundIdentity", LawBoundIdentity(cur, m)>>,
+     <<"Homomorphism", LawHomomorphism(cur, m)>>,
+     <<"FreeAfterSubst", FreeSyms(Doit(r)) = FreeSyms(r)>> >>
+Xreplace(m) == /\ Budget /\ Admissible(cur, m)
+               /\ Become(Subst(cur, m), 1, SubstChecks(m, Subst(cur, m)))
+OneMap(o, r) == << <<o, r>> >>
+Subs(o, r)  == /\ Budget /\ Admissible(cur, OneMap(o, r))
+               /\ Become(Subst(cur, OneMap(o, r)), 1, SubstChecks(OneMap(o, r), Subst(cur, OneMap(o, r))))
 DoitA       == /\ Budget
                /\ Become(den, 1, << <<"FreeUnderDoit", FreeSyms(den) = fs>>,
-                                   <<"DoitIdempotent", Doit(den) = den>> >>)
+                                   <<"DoitIdempotent", Doit(den) = den>>,
+                                   <<"DoitUnfoldsAll", ~ Folded(den)>> >>)
 RebuildA    == /\ Budget /\ cur.k \in {"node", "pool"} /\ cur.at = <<>>
                /\ Become(Rebuild(cur), 1, << <<"RebuildIdentity", Rebuild(cur) = cur>> >>)
 PickleA     == /\ Budget
@@ -82,14 +89,29 @@ CleanupA    == /\ Budget /\ cur.k = "pool"
 Nest(c)     == /\ (NestAnytime \/ n = 0) /\ cur.k # "sum"
                /\ Depth(Plug(c, cur)) <= MaxDepth /\ WellFormed(Plug(c, cur))
                /\ Become(Plug(c, cur), 0, <<>>)
-Vary(u)     == /\ Budget
-               /\ Become(u, 1, << <<"NeighbourDiffers", ~ EqT(u, cur) /\ u # cur>> >>)
+\* neighbours: exactly one argument (of the node, or of the summand of a pool sum), one
+\* non-SymPy attribute, or one pool differs; such terms are never equal
+Differs(u) == << <<"NeighbourDiffers", ~ EqT(u, cur) /\ u # cur>> >>
+VaryArg(pos, r) ==
+  /\ Budget
+  /\ \/ /\ cur.k = "node" /\ pos \in DOMAIN cur.a /\ cur.a[pos] # r
+        /\ Become([cur EXCEPT !.a[pos] = r], 1, Differs([cur EXCEPT !.a[pos] = r]))
+     \/ /\ cur.k = "pool" /\ Body(cur).k = "node" /\ pos \in DOMAIN Body(cur).a /\ Body(cur).a[pos] # r
+        /\ Become([cur EXCEPT !.a[1].a[pos] = r], 1, Differs([cur EXCEPT !.a[1].a[pos] = r]))
+VaryAttr(pos, lbl) ==
+  /\ Budget /\ cur.k = "node" /\ pos \in DOMAIN cur.at /\ cur.at[pos] # lbl
+  /\ Become([cur EXCEPT !.at[pos] = lbl], 1, Differs([cur EXCEPT !.at[pos] = lbl]))
+VaryPool(pos, p) ==
+  /\ Budget /\ cur.k = "pool" /\ pos \in DOMAIN cur.ix /\ cur.ix[pos][2] # p
+  /\ Become([cur EXCEPT !.ix[pos] = <<cur.ix[pos][1], p>>], 1, Differs([cur EXCEPT !.ix[pos] = <<cur.ix[pos][1], p>>]))
 
 Next == \/ \E m \in Maps : Xreplace(m)
         \/ \E p \in Pairs : Subs(p[1], p[2])
         \/ DoitA \/ RebuildA \/ PickleA \/ CleanupA
         \/ \E c \in Ctxs : Nest(c)
-        \/ \E u \in Neighbours(cur) : Vary(u)
+        \/ \E pos \in 1..2, r \in VaryArgs : VaryArg(pos, r)
+        \/ \E pos \in 1..2, lbl \in VaryAttrs : VaryAttr(pos, lbl)
+        \/ \E pos \in 1..2, p \in VaryPools : VaryPool(pos, p)
 
 Spec == Init /\ [][Next]_vars
 
